@@ -366,6 +366,12 @@ func (cl *Client) Read(packetHandler ReadFn) error {
 
 	for {
 		if cl.Closed() {
+			// The connection has been closed by the broker. Unless that followed a DISCONNECT packet
+			// of the client it has not ended normally (session taken over, server shutting down):
+			// report the cause, so that the will message is not discarded.
+			if cause := cl.StopCause(); cause != nil && !errors.Is(cause, packets.CodeDisconnect) {
+				return cause
+			}
 			return nil
 		}
 
